@@ -248,5 +248,5 @@ def jobs(tier):
                        witness_every=1))
     for layout in ('single', 'spliced', 'two_spans'):
         js.append(dict(name=f'H8c:connectors_and_padding:{layout}', fn='h_padding', params=dict(layout=layout), cost=60))
-    js.append(dict(name='H8b:designed_network:shape_grammar', fn='h_pipeline', cost=200, witness_every=1, budget_s=250 if tier == 'quick' else 1500))
+    js.append(dict(name='H8b:designed_network:shape_grammar', fn='h_pipeline', cost=200, witness_every=1, budget_s=250 if tier == 'quick' else 600))
     return js
